@@ -217,6 +217,10 @@ type verifyOpts struct {
 
 var typedAtom = zap.Int("f", 1)
 
+// typedErrKeyAtom is a typed field that uses the key "error" (a string, so it
+// cannot be confused with the field the first bare error becomes).
+var typedErrKeyAtom = zap.String("error", "typed")
+
 func verify(args []interface{}, exp *expect, entries []observer.LoggedEntry, o verifyOpts) []problem {
 	var ps []problem
 	bad := func(key, format string, a ...interface{}) {
@@ -425,7 +429,7 @@ func verify(args []interface{}, exp *expect, entries []observer.LoggedEntry, o v
 
 // atomsOf: how many arguments a field of the main entry stands for.
 func atomsOf(f zapcore.Field) int {
-	if f.Type == zapcore.SkipType || f.Equals(typedAtom) {
+	if f.Type == zapcore.SkipType || f.Equals(typedAtom) || f.Equals(typedErrKeyAtom) {
 		return 1
 	}
 	if f.Key == "error" && f.Type == zapcore.ErrorType {
